@@ -164,12 +164,18 @@ VPack(e) ==
      ELSE R("", I2, ws, [x \in {} |-> 0])
 
 (* ------------------------------- readers -------------------------------------- *)
+\* the chain is handed out as a dict: order is lost, and of two entries with one node number only one survives
+ChainEq(v, want) ==
+  LET ids == {want[i][1] : i \in 1..Len(want)}
+  IN IF Cardinality(ids) = Len(want) THEN ToSet(v) = ToSet(want)
+     ELSE {v[i][1] : i \in 1..Len(v)} = ids /\ ToSet(v) \subseteq ToSet(want)
 ValEmpty(get, v) == IF get = "block" THEN Len(v[1]) = 0 ELSE Len(v) = 0
 ValEq(get, H, v, want) ==
   IF get = "verinfo"
   THEN /\ <<v.seqnum, v.root, v.salt, v.segsize, v.datalen, v.k, v.n, v.prefix>> =
           <<want.seqnum, want.root, want.salt, want.segsize, want.datalen, want.k, want.n, want.prefix>>
        /\ \A nm \in EntryNames(H.fmt) : nm \in DOMAIN v.offs /\ v.offs[nm] = want.offs[nm]
+  ELSE IF get = "sharehashes" THEN ChainEq(v, want)
   ELSE v = want
 
 VRead(e) ==
@@ -222,7 +228,7 @@ VUnpack(e) ==
                   IF <<v.seqnum, v.root, v.salt, v.k, v.n, v.segsize, v.datalen>> #
                      <<H.seqnum, H.root, H.salt, H.k, H.n, H.segsize, H.datalen>> THEN Fail("U_header_value")
                   ELSE IF v.pubkey # G("verification_key").val \/ v.signature # G("signature").val
-                          \/ v.enc_privkey # G("encprivkey").val \/ v.share_hash_chain # G("sharehashes").val
+                          \/ v.enc_privkey # G("encprivkey").val \/ ~ChainEq(v.share_hash_chain, G("sharehashes").val)
                           \/ v.block_hash_tree # G("blockhashes").val
                           \/ v.share_data # Slice(img, o.share_data, o.enc_privkey) THEN Fail("U_field_is_not_what_the_table_denotes")
                   ELSE R("", img, ws, rs)
